@@ -16,7 +16,7 @@ RULE = ('programs = every well-typed pipeline of depth 1..3 over the dual-mode o
         'a group can be delivered as a second lifetime of an index that already completed. Oracle (differential on the real '
         'code): items at the tail tap bucketed per group == items delivered by rx.from_(group items).pipe(*P) built afresh. '
         'Non-trivial = at least two groups whose items interleave.')
-DEEP_PROBES = ('every program subscribed twice on the same observable (keyed and plain); flat_map followed by every operator; group keys with equal hashes (-1/-2, 5/5+2^61-1); float states through 0.0 / -0.0 and non-dyadic floats')
+DEEP_PROBES = ('the same groups reached through two levels of group_by (several parent keys alive, each with inner groups); every program subscribed twice on the same observable (keyed and plain); flat_map followed by every operator; group keys with equal hashes (-1/-2, 5/5+2^61-1); float states through 0.0 / -0.0 and non-dyadic floats')
 ASSUMPTIONS = ['user functions are total and pure; accumulators keep the seed type (typed grammar)',
                'first/last/mean(reduce) on an empty group are outside the property (skipped on whichever side the error shows)',
                'emission time and the order between outputs of different groups are not compared']
@@ -191,6 +191,11 @@ def run_case(case, acc):
         runs = [(order, pattern, spec) for order in inputs(case['tier']) for pattern in (0, 1)]
         # the same with group keys that are distinct but have equal hashes (-1 / -2, 5 / 5 + 2^61 - 1)
         runs += [(order, 0, spec_hash) for order in ([0, 1, 0, 1, 1], [0, 1, 2, 3, 0, 2, 1, 3], [2, 3, 3, 2])]
+        # the same groups reached through TWO levels of group_by (parity of the group, then the group): several parent keys are
+        # alive at once, each with its own inner groups
+        opspecs.FUNCS.setdefault('div10_mod2', lambda x: (x // 10) % 2)
+        spec_nested = [['group_by', 'div10_mod2', [['group_by', 'div10', [['tap', 'h']] + prog + [['tap', 't']]]]]]
+        runs += [(order, 0, spec_nested) for order in ([0, 1, 2, 3, 0, 2, 1, 3], [0, 1, 0, 1, 2, 2], [1, 0, 3, 2, 1, 0, 3])]
         for order, pattern, spec in runs:
             if True:
                 items = items_of(order, pattern)
